@@ -22,13 +22,15 @@ def builds_needed(tier):
 def extra_builds(tier):
     def vec(fname, i):
         # the vector code is in the block functions: the graph shards (every partition of 4 blocks) of the digests that have one
+        if fname != "shard_graph":
+            return False
         n = specs(tier)[i][0]
-        return fname == "shard_graph" and ("sha256" in n or "sha224" in n or "blake2" in n)
+        return "sha256" in n or "sha224" in n or "blake2" in n
 
     def chk(fname, i):
         # checked-arithmetic build: every lifecycle history of the tree shards
         return fname == "shard_tree"
-    return [("relchk", chk), ("avx", vec), ("avx2", vec)]
+    return [("relchk", chk), ("avx", vec), ("native", vec)]
 
 
 
@@ -113,6 +115,12 @@ class LifeSystem:
                 if epoch < self.max_resets or not self.graph:
                     out.append(("reset", i))
                 continue
+            if fin == "poison":
+                # after a refused (wrong-length) result: a further result must refuse again or be the right value; reset revives
+                out.append(("res", i))
+                out.append(("raw" if self.api == "m" else "rstr", i))
+                out.append(("reset", i))
+                continue
             for l in self.L:
                 if self.graph and len(data) + l > self.max_bytes:
                     continue
@@ -122,6 +130,8 @@ class LifeSystem:
                 out.append(("raw", i))
             else:
                 out.append(("rstr", i))
+            if not self.graph and fin is None:
+                out.append(("bad", i))
             if epoch < self.max_resets or not self.graph:
                 out.append(("reset", i))
                 if self.which:
@@ -150,6 +160,11 @@ class LifeSystem:
                 return tuple(m), ["%s %s %s" % (self.opn("input"), s, arg)], ["PANIC"]
             m[i] = (key, epoch, data + pat(5, off, l), None)
             return tuple(m), ["%s %s %s" % (self.opn("input"), s, arg)], ["-"]
+        if op == "bad":
+            # result into a buffer one byte short: a loud refusal; it must not leave an object that later answers with a wrong value
+            n = self.D - 1 if self.D > 1 else self.D + 1
+            m[i] = (key, epoch, data, "poison")
+            return tuple(m), ["%s %s %d" % ("mraw" if self.api == "m" else "dresult", s, n)], ["PANIC"]
         if op in ("res", "raw", "rstr"):
             name = {"res": self.opn("result"), "raw": "mraw", "rstr": "dresult_str"}[op]
             val = obs_of(self.M(key, data))
@@ -158,6 +173,9 @@ class LifeSystem:
             if fin is None:
                 m[i] = (key, epoch, data, "once")
                 return tuple(m), ["%s %s" % (name, s)], [val]
+            if fin == "poison" and op == "rstr":
+                m[i] = (key, epoch, data, "done")
+                return tuple(m), ["%s %s" % (name, s)], [(val, "PANIC")]
             m[i] = (key, epoch, data, "done")
             return tuple(m), ["%s %s" % (name, s)], [(val, "PANIC")]
         if op == "reset":
@@ -204,7 +222,25 @@ def _mk(ck):
 
 def shards(tier):
     n = len(specs(tier))
-    return [("shard_tree", i) for i in range(n)] + [("shard_graph", i) for i in range(n)]
+    return [("shard_tree", i) for i in range(n)] + [("shard_graph", i) for i in range(n)] + [("shard_input_str", None)]
+
+
+def shard_input_str(_, tier):
+    """Digest::input_str (text input) of every legacy digest object, alone and mixed with input: the digest of the same bytes"""
+    ck = core.Checker(PROPERTY_ID)
+    _mk(ck)
+    cases = []
+    kinds = [(k, k, hashes.FIXED[k][0], (lambda kk: (lambda d: hashes.digest(kk, d)))(k)) for k in DIGESTS]
+    kinds += [("blake2b 64", "blake2b", 128, lambda d: hashes.blake2("b", d, 64, b"")), ("blake2s 32", "blake2s", 64, lambda d: hashes.blake2("s", d, 32, b""))]
+    for new, _, B, f in kinds:
+        for l in (0, 1, B - 1, B, B + 1, 2 * B + 3):
+            txt = bytes(0x20 + (i * 7) % 95 for i in range(l))
+            cases.append((["dnew s0 %s" % new, "dinput_str s0 %s" % H(txt), "dresult s0"], ["-", "-", obs_of(f(txt))], None))
+            cases.append((["dnew s0 %s" % new, "dinput s0 %s" % P(5, 0, 3), "dinput_str s0 %s" % H(txt), "dinput s0 %s" % P(5, 3, 1), "dresult s0"],
+                          ["-", "-", "-", "-", obs_of(f(pat(5, 0, 3) + txt + pat(5, 3, 1)))], None))
+    ck.run(cases)
+    ck.stats.states += len(cases)
+    return ck.stats
 
 
 def shard_tree(i, tier):
